@@ -168,6 +168,7 @@ def judgeCase (_k : Nat) (lines : List String) : Verdict := Id.run do
               if mkind == "trunc" then
                 (if setup.emptyStored || (path == "seq" && setup.ct.isEmpty) then ".truncated-inside-the-envelope"
                  else if path == "seek" then ".truncated.seekable-reader" else ".truncated.sequential-reader")
+              else if mkind == "hdr-segsize" && path == "seek" && got.isEmpty then ".segment-size-header-altered.seekable-reader"
               else ""
             vio := vio ++ [((if mutated then "C16.tampered-part-read-without-error" else "C16.read-returned-wrong-bytes") ++ ctx,
               s!"{tag}:returned-{got.length}-bytes,expected-{want.length}")]
